@@ -126,6 +126,11 @@ def run(ctx):
         bres, bfiles = run_one(common + bout + bout_ut + bargs, binputs, 1)
         brecs1 = clirun.parse_fastx(bfiles["base1." + name])
         brecs2 = clirun.parse_fastx(bfiles["base2." + name]) if paired else None
+        missing = [fn_ for fn_ in [o1] + ([f"o2.{name}{outc}"] if layout == "paired" else []) + ([f"u1.{name}{outc}"] if with_ut else []) if fn_ not in out]
+        if missing:
+            ctx.failures.append(Failure("C19/output-file-missing", "an output file that the command line names was not created (the plain single-core run "
+                                        "creates every output file, also an empty one)", cell, sorted(out), missing))
+            continue
         got1 = clirun.parse_fastx(out[o1])
         if layout == "interleaved":
             exp = [r for p in zip(brecs1, brecs2) for r in p]
